@@ -26,9 +26,17 @@ VALUES = ['v', 'value', '/x', '/', 'a/b', 'text/plain', '1.0', '.', '..',
           '99999999999999999999', '-0']
 
 
+# values made only of digits, "_" and "-": int() may or may not take them;
+# either rendering is accepted, but they must never make the reader fail
+SLIVERS = ['--5', '1_000', '-', '--', '1-', '-1-', '1__0', '_1', '1_', '-_1',
+           '0_0', '1-2', '9' * 30, '-' + '9' * 30, '0' * 20]
+
+
 def key_st():
+    harvested = [k for k in sut.identifier_names() if k not in KNOWN]
     return hs.one_of(
         hs.sampled_from(KEYS),
+        hs.sampled_from(harvested),
         hs.builds(lambda a, b: a + b, hs.sampled_from('abcXYZ'),
                   hs.text(alphabet='abzAZ09_-', max_size=8)),
     ).filter(lambda k: k not in KNOWN)
@@ -37,8 +45,9 @@ def key_st():
 def value_st():
     return hs.one_of(
         hs.sampled_from(VALUES),
+        hs.sampled_from(SLIVERS),
         hs.text(alphabet='abzAZ059/._-', min_size=1, max_size=10),
-    ).filter(lambda v: len(spec.convert_value(v)) == 1)
+    )
 
 
 @hs.composite
@@ -102,14 +111,23 @@ def run_case(case, st):
         added = {}
 
         for _pos, k, v in case['extras'].get(str(i), ()):
-            added[k] = spec.convert_value(v)[0]
+            added[k] = spec.convert_value(v)
 
-        want = dict(a['options'])
-        want.update(added)
         got = b.get('options')
+        want = dict(a['options'])
+        ok = isinstance(got, dict) and set(got) == set(want) | set(added)
 
-        if got != want or any(type(got[k]) is not type(want[k])
-                              for k in want):
+        if ok:
+            for k in got:
+                alts = added[k] if k in added else (want[k],)
+
+                if not any(type(got[k]) is type(x) and got[k] == x
+                           for x in alts):
+                    ok = False
+
+        want.update({k: v[0] for k, v in added.items()})
+
+        if not ok:
             st.violation('options-not-carried',
                          'record %d (%s): %r, expected %r'
                          % (i, a['section'], got, want), case)
@@ -124,7 +142,12 @@ def run_case(case, st):
                          % (i, a['section'], _short(ra), _short(rb)), case)
             return
 
-    # and both equal the specification's reading
+    # and both equal the specification's reading (where the reading of
+    # every added value is decided)
+    if any(len(spec.convert_value(v)) > 1
+           for pairs in case['extras'].values() for _p, _k, v in pairs):
+        return
+
     res = foreign.compare(r1, ext.records)
 
     if res is not None:
